@@ -17,10 +17,12 @@ Mag(x)  == IF Msb(x) = 1 THEN M(Len(x)) - Val(x) ELSE Val(x)
 
 Vecs(n) == [1..n -> Digit]
 
-Init == \E n \in 1..MaxLen : a \in Vecs(n) /\ b \in Vecs(n) /\ h \in Vecs(n) /\ c \in {0, 1}
-Next == UNCHANGED vars
+\* the operand space is spread over Init (a) and Next (b, h, c) so that TLC's workers share the evaluation
+Init == \E n \in 1..MaxLen : a \in Vecs(n) /\ b = Zeros(n) /\ h = Zeros(n) /\ c = 2
+Next == c = 2 /\ a' = a /\ b' \in Vecs(Len(a)) /\ h' \in Vecs(Len(a)) /\ c' \in {0, 1}
 
 n == Len(a)
+Live == c # 2            \* seed states carry no operands
 
 AddOK  == LET x == AddC(a, b, c) IN
             /\ Val(x.r) = (Val(a) + Val(b) + c) % M(n)
@@ -69,9 +71,35 @@ DivOK  == IsZero(b) \/ LET num == Cat(a, h) x == UDivMod(num, b) IN
             /\ Len(x.q) = 2 * n /\ Len(x.r) = n
             /\ Val(x.q) = Val(num) \div Val(b)
             /\ Val(x.r) = Val(num) % Val(b)
+\* relational division: fits / relation agree with the computed quotient (unsigned) and with magnitudes (signed)
+DivRelOK == IsZero(b) \/ LET num == Cat(a, h) x == UDivMod(num, b) IN
+            /\ UDivFits(num, b) = (Val(num) \div Val(b) < M(n))
+            /\ UDivFits(num, b) => UDivRel(num, b, Trunc(x.q, n), x.r)
+            /\ \A q \in Vecs(n) : (UDivFits(num, b) /\ UDivRel(num, b, q, x.r)) => q = Trunc(x.q, n)
+SDivRelOK == IsZero(b) \/ LET num == Cat(a, h)
+                              qm == Mag(num) \div Mag(b)  rm == Mag(num) % Mag(b)      \* truncating division on magnitudes
+                              neg == Msb(num) # Msb(b)
+                              fits == IF neg THEN qm <= M(n) \div 2 ELSE qm < M(n) \div 2 IN
+            /\ SDivFits(num, b) = fits
+            /\ fits => \A q \in Vecs(n), r \in Vecs(n) :
+                  SDivRel(num, b, q, r) <=> (/\ Mag(q) = qm /\ (qm = 0 \/ (Msb(q) = 1) = neg)
+                                             /\ Mag(r) = rm /\ (rm = 0 \/ Msb(r) = Msb(num)))
 ParityOK == Parity(a) = (LET RECURSIVE P(_)
                              P(j) == IF j = ParityBits(a) THEN 0 ELSE ((Val(a) \div 2^j) % 2) + P(j+1)
                          IN IF P(0) % 2 = 0 THEN 1 ELSE 0)
 
+G_AddOK == Live => AddOK
+G_SubOK == Live => SubOK
+G_NegOK == Live => NegOK
+G_NotOK == Live => NotOK
+G_CmpOK == Live => CmpOK
+G_ExtOK == Live => ExtOK
+G_LogicOK == Live => LogicOK
+G_ShiftOK == Live => ShiftOK
+G_MulOK == Live => MulOK
+G_DivOK == Live => DivOK
+G_DivRelOK == Live => DivRelOK
+G_SDivRelOK == Live => SDivRelOK
+G_ParityOK == Live => ParityOK
 Inv == AddOK /\ SubOK /\ NegOK /\ NotOK /\ CmpOK /\ ExtOK /\ LogicOK /\ ShiftOK /\ MulOK /\ DivOK /\ ParityOK
 =============================================================================
